@@ -587,6 +587,9 @@ func CheckResponseLocations(d *m.Design, meth *m.Method, r *m.Response, result v
 			return value.Nil(), nil, false
 		}
 		v, ok := result.Get(name)
+		if v.K == "skip" {
+			return value.Nil(), f.Attr, false
+		}
 		return v, f.Attr, ok && !v.IsNil()
 	}
 	mapped := map[string]bool{}
